@@ -458,7 +458,7 @@ func c09(r *Report, s *Sem) {
 				if ifi == nil {
 					return false
 				}
-				if call, _, isNil, ok := errTest(ifi, k == 0); ok && call == C && !isNil {
+				if isNil, ok := errTestOf(ifi, k == 0, C); ok && !isNil {
 					return true // confirmation failed: error path
 				}
 				cd := condOn(ifi, k == 0)
@@ -490,8 +490,8 @@ func c09(r *Report, s *Sem) {
 					if ifi == nil {
 						return false
 					}
-					call, _, isNil, ok := errTest(ifi, k == 0)
-					return ok && call == v && isNil
+					isNil, ok := errTestOf(ifi, k == 0, v)
+					return ok && isNil
 				}})
 				tested := false
 				for _, ref := range *v.Referrers() {
@@ -515,8 +515,8 @@ func c09(r *Report, s *Sem) {
 		if ifi == nil {
 			return false
 		}
-		call, _, isNil, ok := errTest(ifi, k == 0)
-		return ok && call == na.negCall && isNil
+		isNil, ok := errTestOf(ifi, k == 0, na.negCall)
+		return ok && isNil
 	})
 	r.Check(R3, "func "+fnName(na.serverEst)+" / authentication only after successful negotiation", p.instrPos(na.authCall), authGuard, "on the negotiation arm the authentication driver must be reached through the negotiation's err == nil edge")
 
@@ -579,6 +579,10 @@ func retMayBeNilX(ret *ssa.Return, nonNil ssa.Value, pred *ssa.BasicBlock) bool 
 	n := len(ret.Results)
 	if n == 0 {
 		return true
+	}
+	// the returned value itself (a phi over several calls, say) was tested non-nil on every path to this return
+	if guardedNonNil(stripConv(ret.Results[n-1]), ret.Block()) {
+		return false
 	}
 	for _, rl := range returnLeaves(fn, n-1) {
 		if rl.in != ret {
@@ -679,8 +683,8 @@ func c09Client(r *Report, s *Sem, R4 string) {
 			if ifi == nil {
 				return false
 			}
-			call, _, isNil, ok := errTest(ifi, k == 0)
-			return ok && call == setCall && isNil
+			isNil, ok := errTestOf(ifi, k == 0, setCall)
+			return ok && isNil
 		}})
 		okErr := len(*setCall.Referrers()) > 0
 		for _, e := range ex {
@@ -725,7 +729,7 @@ func c09Client(r *Report, s *Sem, R4 string) {
 					if ifi == nil {
 						return false
 					}
-					if call, _, isNil, ok := errTest(ifi, k == 0); ok && call == reply && !isNil {
+					if isNil, ok := errTestOf(ifi, k == 0, reply); ok && !isNil {
 						return true
 					}
 					cd := condOn(ifi, k == 0)
